@@ -552,6 +552,64 @@ def bilinear():
     return out
 
 
+def late_adapt_products():
+    """decision * random built while the decision is still STATIC, the decision made affinely adaptive afterwards: the stored product is
+    now a decision rule times a random variable.  Wherever it is used -- E() objective, E() constraint, plain constraint, through a
+    slice taken before the declaration -- something must raise before a program is compiled (at adapt(), at st() or at do_math())."""
+    from ..harness import dro
+    out = []
+    REJ = (ValueError, TypeError, SyntaxError, AttributeError, RuntimeError, NotImplementedError)
+
+    class Rejected(ValueError):
+        pass
+    uses = {
+        "E-objective": lambda m, e, x, fs: m.minsup(rsome.E(e + x), fs),
+        "E-constraint": lambda m, e, x, fs: (m.minsup(rsome.E(x), fs), m.st(rsome.E(e) <= x)),
+        "E-constraint-own-set": lambda m, e, x, fs: (m.minsup(rsome.E(x), fs), m.st((rsome.E(e) <= x).forall(fs))),
+        "plain-constraint": lambda m, e, x, fs: (m.minsup(rsome.E(x), fs), m.st(e <= x)),
+        "E-equality": lambda m, e, x, fs: (m.minsup(rsome.E(x), fs), m.st(rsome.E(e) == x)),
+    }
+    products = {
+        "y*z": lambda y, z: (y * z).sum(), "z*y": lambda y, z: (z * y).sum(), "y@z": lambda y, z: y @ z,
+        "y[0]*z[1]": lambda y, z: y[0] * z[1], "(2*y+1)*z": lambda y, z: ((2 * y + 1) * z).sum(),
+        "held-slice*z": None,
+    }
+    for pn, pf in products.items():
+        for un, uf in uses.items():
+            for scen in (1, 2):
+                def setup(c, pf=pf, scen=scen):
+                    m = dro.Model(scen)
+                    z = m.rvar(2)
+                    y = m.dvar(2)
+                    x = m.dvar()
+                    if pf is None:
+                        held = y[0]                     # slice taken before the declaration: its own flags are stale afterwards
+                        y.adapt(z)
+                        e = None
+                    else:
+                        held = None
+                        e = pf(y, z)
+                        y.adapt(z)
+                    fs = m.ambiguity()
+                    fs.suppset(z >= 1, z <= 2)
+                    return {"m": m, "e": e, "held": held, "x": x, "y": y, "z": z, "fs": fs}
+
+                def call(ns, uf=uf):
+                    try:
+                        e = ns["e"] if ns["held"] is None else ns["held"] * ns["z"][1]
+                        uf(ns["m"], e, ns["x"], ns["fs"])
+                        ns["m"].st(ns["y"] >= ns["z"], ns["x"] >= 0)
+                        ns["m"].do_math()
+                    except REJ as ex:
+                        raise Rejected(f"{type(ex).__name__}: {ex}")
+                    return None
+                obs, _ = check_function("rsome.dro:Model.dro_to_roc / ro_to_roc", setup, call,
+                                        [always_raises("rejects-a-product-whose-decision-became-adaptive-after-it-was-built", (Rejected,))],
+                                        mode="D", label=f"{pn},{un},scenarios={scen}", bounded=True)
+                out += obs
+    return out
+
+
 def adaptive_atoms():
     """A convex atom of an affinely ADAPTIVE decision (y(z) = y0 + Y z) is not a convex function of the decisions alone:
     every atom must reject it -- at construction or when the constraint is handed to the model -- instead of
@@ -655,7 +713,7 @@ def _run_job(job):
     if k == "piecewise":
         return piecewise_ops()
     if k == "bilinear":
-        return bilinear()
+        return bilinear() + late_adapt_products()
     if k == "adaptive_atoms":
         return adaptive_atoms()
     if k == "atom_arguments":
